@@ -166,7 +166,7 @@ fn net_case_strategy() -> impl Strategy<Value = NetCase> {
         2 => (1usize..1500, 0u32..3_000_000).prop_map(|(k, at)| Bytes(format!("GET /huge.bin HTTP/1.1\r\nRange: bytes={}\r\n\r\n", (0..k).map(|j| { let a = (at as usize + j * 1999) % (3 << 20); format!("{}-{}", a, (a + 600).min((3 << 20) - 1)) }).collect::<Vec<_>>().join(",")).into_bytes())),
         2 => Just(Bytes(b"GET /big.bin HTTP/1.1\r\nHost: localhost\r\n\r\n".to_vec())),
         // a complete head followed by a body that is longer than the server's buffer (the rest is still on its way when the response is written)
-        3 => (10_100usize..20_000).prop_map(|n| { let mut v = b"GET /huge.bin HTTP/1.1\r\nHost: localhost\r\nContent-Type: application/octet-stream\r\n\r\n".to_vec(); while v.len() < n { v.push(b'a' + (v.len() % 26) as u8); } Bytes(v) }),
+        3 => prop_oneof![3 => 10_100usize..20_000, 2 => 20_000usize..150_000, 1 => 150_000usize..700_000].prop_map(|n| { let mut v = b"GET /huge.bin HTTP/1.1\r\nHost: localhost\r\nContent-Type: application/octet-stream\r\n\r\n".to_vec(); while v.len() < n { v.push(b'a' + (v.len() % 26) as u8); } Bytes(v) }),
         1 => request_pool(),
     ];
     (req, prop::sample::select(vec![65536u32, 262144, 0, 0]), prop::sample::select(vec![1u32, 7, 100, 1000, 4096, 65536]), prop::sample::select(vec![0u32, 1, 16, 256]), 0u8..4, prop::sample::select(vec![0u8, 5, 40]), any::<bool>())
@@ -181,8 +181,13 @@ pub fn eval_net(ctx: &Ctx, srv: &crate::fw::net::Server, c: &NetCase) -> Verdict
     let full = mask_timestamp(&reference.out.out);
     let mut s = match srv.connect() { Ok(s) => s, Err(e) => { ctx.inconclusive(&format!("connect: {}", e)); return Verdict::Discard; } };
     if c.rcvbuf > 0 { let v: libc::c_int = c.rcvbuf as libc::c_int; unsafe { libc::setsockopt(s.as_raw_fd(), libc::SOL_SOCKET, libc::SO_RCVBUF, &v as *const _ as *const libc::c_void, std::mem::size_of::<libc::c_int>() as libc::socklen_t); } }
-    let trickled = c.trickle && c.request.0.len() > 10_050;
-    if trickled {
+    let trickled = c.trickle && c.request.0.len() > 10_050 && c.request.0.len() <= 20_300;
+    let long_tail = !trickled && c.request.0.len() > 20_300;
+    if long_tail {
+        // far more than the server's buffer and the socket buffers hold: the tail is written by a second thread while the response is being read (a client that only writes would wait for a server that only writes)
+        if s.write_all(&c.request.0[..10_050]).is_err() { ctx.inconclusive("write to the server failed"); return Verdict::Discard; }
+        if let Ok(mut w) = s.try_clone() { let rest = c.request.0[10_050..].to_vec(); std::thread::spawn(move || { let _ = w.write_all(&rest); }); }
+    } else if trickled {
         if s.write_all(&c.request.0[..10_050]).is_err() { ctx.inconclusive("write to the server failed"); return Verdict::Discard; }
         if let Ok(mut w) = s.try_clone() { let rest = c.request.0[10_050..].to_vec(); std::thread::spawn(move || { for piece in rest.chunks(256) { if w.write_all(piece).is_err() { break; } std::thread::sleep(std::time::Duration::from_millis(1)); } }); }
     } else if s.write_all(&c.request.0).is_err() { ctx.inconclusive("write to the server failed"); return Verdict::Discard; }
@@ -218,6 +223,7 @@ pub fn eval_net(ctx: &Ctx, srv: &crate::fw::net::Server, c: &NetCase) -> Verdict
     if full.len() > 1 << 20 { classes.push("response-over-1-MiB"); }
     if c.read_chunk <= 100 { classes.push("small-reads"); }
     if trickled { classes.push("request-tail-trickled-while-the-response-is-read"); }
+    if long_tail { classes.push("request-tens-or-hundreds-of-KB-beyond-the-buffer"); }
     ctx.judge(problems, full.len() > 65536, classes)
 }
 
